@@ -35,7 +35,7 @@ def crc_step_exhaustive(tmp, tier, seed, goenv):
 
 
 PROP = {
-    "coq": ["C06", "C06b", "C06c", "C06s"],
+    "coq": ["C06", "C06b", "C06c", "C06s", "C06t"],
     "pre": [regen_src],
     "extra": [crc_step_exhaustive, replay_src({'crc'})],
     "exhaustive": True,
